@@ -124,6 +124,7 @@ def run_config(cfg, res):
   r = gen.rng(cfg['seed'], 'C17', cfg['name'])
   label = cfg['strategy']
   nh = (2, 2) if cfg['tier'] == 'quick' else (6, 6)
+  nrun = [0]
   for i in range(nh[0] + nh[1]):
     short = i < nh[0]
     ops, ndr = gen_history(r, cfg['lag'], short)
@@ -131,7 +132,12 @@ def run_config(cfg, res):
     hk = hash(repr(ops))
 
     def one(policy, desc):
-      h = world.run(ops, ('drains', ndr), policy=policy)
+      nrun[0] += 1
+      # with a lag configured, what is still too young when input stops becomes drainable either by the clock moving on
+      # or by the daemon's shutdown hook setting the lag to zero: alternate between the two
+      h = world.run(ops, ('drains', ndr), policy=policy, rest_via_hook=bool(cfg['lag']) and nrun[0] % 2 == 0)
+      if getattr(h, 'rest_via_hook', False):
+        res.count('rest_drained_after_shutdown_hook_zeroed_the_lag')
       res.count('schedules_executed')
       for k, v in h.window_hits.items():
         res.count('window_' + k, v)
